@@ -145,12 +145,25 @@ def make(game: str, variant: str):
     if variant == "empties":
         notes = [n for n in NOTES if n[2] is None]
         svs = []
+    if game == "sm" and variant == "extras":
+        variant_for_meta = "plain"
     m = charts.make_map(game, notes, BPMS, svs if game in ("osu", "qua") else (), meta=game_extras(game, variant))
     if game == "osu" and variant != "empties":
         from reamber.osu.OsuSample import OsuSample
         from reamber.osu.lists import OsuSampleList
 
         m.samples = OsuSampleList([OsuSample(offset=1200.0, sample_file="s.wav", volume=40)])
+    if game == "sm" and variant == "extras":
+        from reamber.sm import SMFake, SMKeySound, SMLift, SMMine, SMRoll, SMStop
+        from reamber.sm.lists import SMStopList
+        from reamber.sm.lists.notes import SMFakeList, SMKeySoundList, SMLiftList, SMMineList, SMRollList
+
+        m.rolls = SMRollList([SMRoll(1500.0, 3, 250.0), SMRoll(5000.0, 0, 1000.0)])
+        m.mines = SMMineList([SMMine(750.0, 2)])
+        m.lifts = SMLiftList([SMLift(3500.0, 0)])
+        m.fakes = SMFakeList([SMFake(250.0, 3)])
+        m.keysounds = SMKeySoundList([SMKeySound(0.0, 0)])
+        m.stops = SMStopList([SMStop(6000.0, 500.0)])
     if variant == "gaps":
         m.hits = m.hits.after(600.0)
         m.bpms = m.bpms  # unchanged: tempo lists are rarely filtered
@@ -184,6 +197,8 @@ def variants(game: str):
     vs = ["plain", "empties", "gaps", "unsorted"]
     if game in ("osu", "qua", "sm", "bms"):
         vs.append("read")
+    if game == "sm":
+        vs.append("extras")  # rolls, mines, lifts, fakes, keysounds and a stop
     return vs
 
 
